@@ -551,6 +551,11 @@ func runImpl(ops []string) (lines []string, panicked string) {
 					im.checkStored("after the commitment")
 				}
 				line = fmt.Sprintf("commit %s %s %s", w[1], im.ecFields(ec, " "), res)
+				if im.app {
+					// through the application a single commitment is a one-commitment transaction:
+					// atomic (a rejected one leaves the stored pool untouched also beyond the wrap bound)
+					line = fmt.Sprintf("tx %s %s,%s", res, w[1], im.ecFields(ec, ","))
+				}
 			case "rawadd":
 				ec := im.mkCommit(int(u(w[1])), int(u(w[2])), u(w[3]), int(u(w[4])), w[5] == "1", true)
 				if commitment.VerifyExecutorCommitment(ctx, im.lastBlock, rt, im.committee.ValidFor, ec, nil, nil) != nil {
